@@ -371,7 +371,11 @@ func HarnessC14CallOutputs() {
 		Inputs: ReusableWorkflowMetadataInputs{}, Secrets: ReusableWorkflowMetadataSecrets{}, Outputs: outs,
 	}
 	s := yScalar
+	// the reference alone or as the condition of the `cond && x || y` idiom
 	ref := s("echo ${{ needs.j.outputs." + X + " }}")
+	if verifChoose("idiom", 2) == 1 {
+		ref = s("echo ${{ needs.j.outputs." + X + " && 'hit' || 'miss' }}")
+	}
 	doc := yDoc(yMap(s("on"), s("push"), s("jobs"), yMap(
 		s("j"), yMap(s("uses"), s("./.github/workflows/callee.yml")),
 		s("k"), verifC14Reader(ref),
